@@ -543,5 +543,5 @@ pub fn run(ctx: &Ctx) -> ! {
     if ctx.tier == vcommon::Tier::Thorough || ctx.is_replay() {
         rep.explore("lender_pct", rule, || case(3, true), scripts / 2, move |c, i| check(c, i, iters));
     }
-    rep.finish()
+    crate::finish(rep)
 }
